@@ -2,7 +2,7 @@
    homogeneous coordinates) and the EuclideanSpace defaults of src/structure.rs
    (midpoint, centroid). *)
 
-From Coq Require Import List.
+From Coq Require Import List ZArith QArith.
 From CG Require Import Scalar Model.Vector.
 Import ListNotations.
 Set Implicit Arguments.
@@ -128,6 +128,11 @@ Section Pt.
     p2_from_vec (v2_div_s O (fold_left (fun acc p => v2_add O acc (p2_to_vec p)) ps (v2_zero O)) n).
   Definition p3_centroid (ps : list (P3 F)) (n : F) : P3 F :=
     p3_from_vec (v3_div_s O (fold_left (fun acc p => v3_add O acc (p3_to_vec p)) ps (v3_zero O)) n).
+  (* the scalar `cast(points.len())` *)
+  Definition len_c (A : Type) (l : list A) : F := ofQ O (inject_Z (Z.of_nat (length l))).
+  Definition p1_centroid_len (ps : list (P1 F)) := p1_centroid ps (len_c ps).
+  Definition p2_centroid_len (ps : list (P2 F)) := p2_centroid ps (len_c ps).
+  Definition p3_centroid_len (ps : list (P3 F)) := p3_centroid ps (len_c ps).
   (* MetricSpace::distance2(self, other) = (other - self).magnitude2() *)
   Definition p1_distance2 (a b : P1 F) : F := v1_magnitude2 O (p1_sub_p b a).
   Definition p2_distance2 (a b : P2 F) : F := v2_magnitude2 O (p2_sub_p b a).
